@@ -106,7 +106,10 @@ partial def visibility (nonsd : List String) (pre : String) (cl e : J) : Option 
   | _, _ => none
 
 def parseTamper : String → Tamper
-  | "forge" => .forge | "dup" => .dup | "alter" => .alter | _ => .none
+  | "forge" => .forge | "dup" => .dup | "alter" => .alter
+  -- another base64url spelling of a genuine disclosure is not the committed string: an altered / a duplicated disclosure
+  | "respell" => .alter | "duprespell" => .dup
+  | _ => .none
 
 /-- (model column, spec column, tags) -/
 def judge (input impl : String) : String × String × String :=
